@@ -16,8 +16,8 @@ import vlib
 import progs
 import specdiff
 
-THEOREM_MODULES = ["Yarel.Props.C15", "Yarel.Props.C09"]
-REQUIRED_THEOREMS = ["residue_fresh", "residue_fresh_after_any_run", "reset_eq_new", "execute_dual"]
+THEOREM_MODULES = ["Yarel.Props.C15", "Yarel.Props.C09", "Yarel.Props.SpecReuse"]
+REQUIRED_THEOREMS = ["execute_depends_on_persistent_only", "runSnippet_depends_on_persistent_only", "residue_fresh", "residue_fresh_after_any_run", "reset_eq_new", "execute_dual"]
 LEVEL = "proof"
 ASSUMPTIONS = [
     "residue = (exception-in-flight flag, class definition in progress, active fiber's stack/frames/handlers, fiber designators) as "
